@@ -496,8 +496,10 @@ def gen_wellformed(rng, tier):
         sec = encode_canonical(t, dir_va) if canonical else encode_classic(rng, t, dir_va)[0]
         tt = tree_text(t)
 
-        def mk(pre, t=t, groups=groups, tt=tt):
-            return std_ops(pre, "ok", tt) + lookup_ops(rng, t, pre, tier) + helper_ops(pre, groups)
+        def mk(pre, t=t, groups=groups, tt=tt, canonical=canonical):
+            ops = std_ops(pre, "ok") + lookup_ops(rng, t, pre, tier) + helper_ops(pre, groups)
+            suffix = " tree=" + tt + (" canon=1" if canonical else "")
+            return [o + suffix for o in ops]
         if rng.random() < 0.5:
             cases.append(mk("res_raw 0x%x %s" % (dir_va, hx(sec))))
         else:
@@ -514,7 +516,7 @@ def gen_wellformed(rng, tier):
     for t in (RDir([], 0), RDir([(1, RData(b"x", 0))], 0), RDir([(utf16("A"), RData(b"", 7))], 1)):
         sec = encode_canonical(t, 0x1000)
         pre = "res_raw 0x1000 %s" % hx(sec)
-        cases.append(std_ops(pre, "ok", tree_text(t)) + lookup_ops(rng, t, pre, tier) + helper_ops(pre, []))
+        cases.append([o + " tree=" + tree_text(t) + " canon=1" for o in std_ops(pre, "ok") + lookup_ops(rng, t, pre, tier) + helper_ops(pre, [])])
     return cases
 
 
